@@ -266,6 +266,11 @@ class Inliner:
                             continue
                 if name is not None:
                     key, crec = self._callee_rec(name)
+                    if crec is None and name.endswith("::into") and len((t.get("f") or {}).get("args") or []) == 2:
+                        # `x.into()` through the blanket impl: the body that runs is `<U as From<T>>::from`; when that impl is new, it
+                        # is inlined in place of the call
+                        src, dst = t["f"]["args"]
+                        key, crec = self._callee_rec("<%s as std::convert::From<%s>>::from" % (dst, src))
                     if crec is not None and key not in stack and depth < MAX_DEPTH:
                         if crec.get("coroutine"):
                             self._inline_poll(i, key, crec, depth, stack)
@@ -315,6 +320,19 @@ class Inliner:
                 return
             for j, a in enumerate(args):
                 binds.append((1 + j, a))
+        # names of the inlined locals: a parameter that is (a reference to) a named variable of the caller takes that name - it is the
+        # same object -, the others keep their own name unless the caller already uses it (then `callee/name`)
+        arg_names = {loff + pl: self._arg_name(b, a) for pl, a in binds}
+        taken = {n for n, pp in rec["names"] if "/" not in n}
+        for e in rec["names"]:
+            n, pp = e
+            if "/" not in n or not (len(pp) >= 1 and loff <= pp[0] < len(rec["locals"])):
+                continue
+            bare = n.split("/", 1)[1]
+            if len(pp) == 1 and arg_names.get(pp[0]):
+                e[0] = arg_names[pp[0]]
+            elif bare not in taken:
+                e[0] = bare
         for pl, a in binds:
             b["stmts"].append({"lhs": [loff + pl], "rv": {"r": "use", "o": a}, "ln": ln, "ex": None, "inl": "arg"})
         rec["blocks"].extend(blocks)
@@ -332,6 +350,33 @@ class Inliner:
                 rec["blocks"][j]["term"] = {"k": "goto", "t": tgt, "ln": rln, "ex": None}
         b["term"] = {"k": "goto", "t": boff, "ln": ln, "ex": t.get("ex"), "inl_call": key}
         self.done.append(key)
+
+    def _arg_name(self, b, a):
+        """source name of the caller's variable that the argument operand is, or refers to"""
+        p = _op_place(a)
+        names = {}
+        for n, pp in self.rec["names"]:
+            names.setdefault(tuple(pp), n)
+        for _ in range(4):
+            if p is None:
+                return None
+            base = [x for x in p if x != "*"]
+            n = names.get(tuple(base))
+            if n:
+                return n
+            if len(base) != 1:
+                return None
+            d = [s_ for s_ in b["stmts"] if s_["lhs"] == [base[0]]]
+            if len(d) != 1:
+                return None
+            rv = d[0]["rv"]
+            if rv["r"] == "ref":
+                p = rv["p"]
+            elif rv["r"] == "use":
+                p = _op_place(rv["o"])
+            else:
+                return None
+        return None
 
     # ---- tail duplication: one return path per site that decides the returned variant ------------------------------------------------
     @staticmethod
@@ -644,7 +689,8 @@ def inline_new(fx, key, rec, new_fns):
     s = fx.sums.get(key)
     if s is not None:
         names = {norm(r or d) for d, r in s.get("calls", []) if (r or d)}
-        if not any(fx._alias.get(n, n) in new_fns for n in names) and not any(k.startswith(key + "::{closure") for k in new_fns):
+        via_into = any(n.endswith("::into") for n in names) and any(k.startswith("<") and " as std::convert::From<" in k for k in new_fns)
+        if not any(fx._alias.get(n, n) in new_fns for n in names) and not any(k.startswith(key + "::{closure") for k in new_fns) and not via_into:
             return rec
     out = Inliner(fx, key, rec, new_fns).run()
     return out if out.get("inlined") else rec
